@@ -157,7 +157,8 @@ func (m *monitor) tableRequest(table string) (columns map[string]bool, sel *ovsd
 	if request.Select != nil {
 		sel = request.Select
 	}
-	if len(request.Columns) > 0 {
+	// all columns only if "columns" is omitted: an empty list selects none
+	if request.Columns != nil {
 		columns = make(map[string]bool, len(request.Columns)+1)
 		columns["_uuid"] = true
 		for _, c := range request.Columns {
